@@ -37,5 +37,22 @@ if "SEEDED_TABLE_PLACEHOLDER" in s:
     s = s.replace("SEEDED_TABLE_PLACEHOLDER", f"{begin}\n{table}\n{end}")
 else:
     s = re.sub(re.escape(begin) + r".*?" + re.escape(end), lambda _: f"{begin}\n{table}\n{end}", s, flags=re.S)
+# statistics paragraph
+n = len(rows)
+fs = [r.split(" | ")[-3].strip() for r in rows]
+yes, pins, no = fs.count("yes"), fs.count("pins only"), fs.count("no")
+now_missed = sum("**missed**" in r for r in rows)
+rej = len(glob.glob(os.path.join(ROOT, "seeded_rejected", "*", "patch.diff")))
+stats = (f"{n} changes are kept (one per property and round, several rounds; {rej} further change(s) were rejected because the pinned suite "
+         f"does not pass with them, see `seeded_rejected/`). When first evaluated, {yes} were caught with a failing input, {pins} only through a broken "
+         f"source pin (`no-failing-input-found`), and {no} were missed; after the additions below "
+         + ("all of them are" if now_missed == 0 else f"all but {now_missed} are") +
+         " caught by the quick tier of their own property's check with a failing input (`tools/regress_seeded.sh` re-evaluates every kept change against "
+         "the final checks). The first-sight rate stayed near forty per cent in every round: that is the honest measure of how much of the "
+         "input / history / configuration space a fresh, targeted change can still find outside what the correspondence and the oracles exercise at "
+         "any given moment; the theorems are unaffected by it (they are about the model) — it measures the tie to the code, and each round moved it.")
+sb, se = "<!-- SEEDED_STATS_BEGIN -->", "<!-- SEEDED_STATS_END -->"
+if sb in s:
+    s = re.sub(re.escape(sb) + r".*?" + re.escape(se), lambda _: f"{sb}\n{stats}\n{se}", s, flags=re.S)
 open(p, "w").write(s)
 print(table)
